@@ -721,6 +721,34 @@ class Translator:
                     out.append(nd.id)
         return out
 
+    def table(self, cls, spec, d):
+        """class whose __init__ sets `self.<attr> = {<str>: (<number>, …), …}`: one tuple definition per entry.
+        returns (lean text, [(entry name, arity)])"""
+        R = d == "real"
+        ty = "ℝ" if R else "Float"
+        attr = spec.get("attr", "_data")
+        init = [n for n in cls.body if isinstance(n, ast.FunctionDef) and n.name == "__init__"]
+        if len(init) != 1:
+            raise Refusal("table class without __init__")
+        dicts = [st.value for st in init[0].body if isinstance(st, ast.Assign) and len(st.targets) == 1
+                 and ast.unparse(st.targets[0]) == f"self.{attr}" and isinstance(st.value, ast.Dict)]
+        if len(dicts) != 1:
+            raise Refusal(f"self.{attr} is not assigned one dict literal")
+        out, entries = [], []
+        for k, v in zip(dicts[0].keys, dicts[0].values):
+            if not (isinstance(k, ast.Constant) and isinstance(k.value, str) and k.value.isidentifier()):
+                raise Refusal(f"table key {ast.unparse(k)}")
+            if not isinstance(v, ast.Tuple):
+                raise Refusal(f"table entry {k.value} is not a tuple")
+            comps = [self.expr(x, d, {}) for x in v.elts]
+            n = len(comps)
+            out.append(f"{'noncomputable def' if R else 'def'} {san(cls.name)}_{san(k.value)} : {self.tuple_ty(ty, n)} :=\n"
+                       f"  ({', '.join(comps)})\n")
+            entries.append((k.value, n))
+        if spec.get("entries") is not None and sorted(spec["entries"]) != sorted(e for e, _ in entries):
+            raise Refusal(f"table entries changed: {sorted(e for e, _ in entries)}")
+        return "\n".join(out), entries
+
     PRELUDE = {
         "real": ("/-- `while c s: s = f s` — the state at the first exit of the loop (classical choice).  When the loop\n"
                  "never exits the value is the start state; theorems about loops carry the exit hypothesis. -/\n"
@@ -799,7 +827,11 @@ class Translator:
                 out.append(st)
             return out
         body = flatten(body)
+        guard_nlets, prev_n = [], 0
         for st in body:
+            while len(guard_nlets) < len(guards):
+                guard_nlets.append(prev_n)
+            prev_n = len(lets)
             text = ast.unparse(st)
             first = text.splitlines()[0]
             if first in glue:
@@ -855,7 +887,8 @@ class Translator:
                 # list is defined once by hand (Proofs/Lemmas) and applied to this term
                 if (isinstance(v, ast.Call) and isinstance(v.func, ast.Attribute) and isinstance(v.func.value, ast.Name)
                         and v.func.value.id == "np" and v.func.attr in ("mean", "nanmean") and len(v.args) == 1
-                        and not v.keywords and spec.get("reduction") == v.func.attr):
+                        and all(k.arg == "axis" and isinstance(k.value, ast.Constant) and k.value.value == 0 for k in v.keywords)
+                        and spec.get("reduction") == v.func.attr):
                     notes.append(f"reduction np.{v.func.attr} over the samples: pointwise term emitted")
                     v = v.args[0]
                 if isinstance(v, ast.Tuple):
@@ -880,7 +913,16 @@ class Translator:
             sig_d = [s for p, s in zip(params, sig) if p not in fun_params]
             call = " ".join((f"{ns}.{san(fun_params[p])}" if p in fun_params else san(p)) for p in params)
             out.append(f"{pre} {name}_d {' '.join(sig_d)} : {rty} :=\n  {name} {call}\n")
-        if guards:
+        while len(guard_nlets) < len(guards):
+            guard_nlets.append(prev_n)
+        if guards and (tuple_params or none_params or any(guard_nlets)):
+            # guards that mention locals / tuple parameters: full signature, the lets in force at the guard
+            gs = [g if not n else "(" + "".join(l + "; " for l in lets[:n]) + g + ")" for g, n in zip(guards, guard_nlets)]
+            if R:
+                out.append(f"/-- the inputs the Python function rejects (raises) -/\ndef {name}_rejects {' '.join(sig)} : Prop :=\n  " + " ∨ ".join(gs) + "\n")
+            else:
+                out.append(f"def {name}_rejects {' '.join(sig)} : Bool :=\n  " + " || ".join(gs) + "\n")
+        elif guards:
             gsig = [s for p, s in zip(params, sig) if env[p] == "num"]
             if R:
                 out.append(f"/-- the inputs the Python function rejects (raises) -/\ndef {name}_rejects {' '.join(gsig)} : Prop :=\n  " + " ∨ ".join(guards) + "\n")
